@@ -32,6 +32,10 @@ def histories(pid, tier, rnd):
     # a few long histories over a larger key pool (deep / wide tries, many pull-ups)
     for k in range({"quick": 6, "thorough": 200}[tier]):
         hs.append(pfxlib.gen_history(rnd, nops=rnd.randint(200, 500), nsrc=4, nq=60))
+    if pid in ("C02", "C09"):
+        # "arbitrary records": also records with address bits behind their length (contents / codes / callbacks only, no validation)
+        for k in range({"quick": 60, "thorough": 2000}[tier]):
+            hs.insert(3 * k + 1, pfxlib.gen_hostbits_history(rnd, nops=rnd.randint(8, 60), nsrc=rnd.randint(1, 3)))
     ndeep = {"quick": 2, "thorough": 12}[tier]
     if pid in ("C01", "C02"):
         for k in range(ndeep):
